@@ -59,8 +59,8 @@ func (f *Eql) Call(s *slip.Scope, args slip.List, depth int) slip.Object {
 		if x == y {
 			return slip.True
 		}
-	default:
-		if same(x, y) != nil {
+	case slip.Number:
+		if _, ok := y.(slip.Number); ok && same(x, y) != nil {
 			return slip.True
 		}
 	}
